@@ -139,6 +139,8 @@ pub struct BsDriver {
     rx: mpsc::Receiver<BlockstoreEvent>,
     log: Vec<Value>,
     last_label: String,
+    /// the rule by which the specification flags the leader in the current step, if it does
+    last_why: RefCell<String>,
     // own bookkeeping of divergences (graph.rs keeps only the first few hundred)
     fps: RefCell<HashMap<String, (u64, Value)>>,
     outcomes: HashMap<String, u64>,
@@ -169,6 +171,7 @@ impl BsDriver {
             rx,
             log: Vec::new(),
             last_label: String::new(),
+            last_why: RefCell::new(String::new()),
             fps: RefCell::new(HashMap::new()),
             outcomes: HashMap::new(),
             micro_calls: 0,
@@ -741,8 +744,10 @@ impl Driver for BsDriver {
                 f.push(format!("pool:{}", gp.split(':').next().unwrap_or("?")));
             }
         }
+        let why = exp["why"].as_str().filter(|w| !w.is_empty()).unwrap_or("-").to_string();
+        *self.last_why.borrow_mut() = why.clone();
         if !f.is_empty() {
-            let fp = format!("{}|{}", self.last_label, f.join(","));
+            let fp = format!("{}|{}|{}", self.last_label, why, f.join(","));
             self.record_fp(fp, &f, &json!({"out": exp}), &json!({"out": got}));
         }
         f
@@ -773,7 +778,7 @@ impl Driver for BsDriver {
         }
         if !f.is_empty() {
             let fields: Vec<String> = f.iter().map(|x| format!("obs.{x}")).collect();
-            let fp = format!("{}|{}", self.last_label, fields.join(","));
+            let fp = format!("{}|{}|{}", self.last_label, self.last_why.borrow(), fields.join(","));
             self.record_fp(fp, &fields, &json!({"obs": exp}), &json!({"obs": got}));
         }
         f
